@@ -19,10 +19,11 @@ model.  An operation that does not return within the watchdog is "blocks forever
 Found on the pinned tree: `m.extend(&m.clone())` / `m.extend(&m)` never returns
 (known finding C43_extend_alias_deadlock, proposed fix proposed_fixes/C43.diff).
 
-Mutation self-tests (private copy of /repo, see checks/c16.py for why): with the proposed fix applied the
-check passes with no KNOWN-FINDING hit; (a) fix applied, then alias check removed again -> blocks_forever
-on extend/aliased (= the known finding's signature; VIOLATION once the entry is `fixed`);
-(b) `insert` ignoring an existing key (`entry().or_insert`) -> VIOLATION kind=contents op=insert.
+Self-tests (private copy of /repo, see checks/c16.py for why): pinned tree -> blocks_forever on extend with
+aliased arguments (221 hits of the known finding in the quick tier); with proposed_fixes/C43.diff applied the
+check passes with no KNOWN-FINDING hit (so re-introducing the two-lock extend is reported again, as a VIOLATION
+once the entry is `fixed`); mutation `insert` keeping an existing entry (`entry().or_insert`) -> VIOLATION
+kind=contents op=insert; undone -> exit 0.
 """
 import json
 
@@ -42,8 +43,9 @@ META = {
             "urls/relays and == are compared after every operation; an operation that does not return is a violation.",
     "note": "Quick: all sequences of length 2 (exhaustive, 2 URLs) plus seeded random sequences of length 3 (3 URLs); "
             "thorough: all of length 3 plus random of length 4. 'Blocks forever' = no return within the watchdog (2 s quick) "
-            "on an otherwise idle private map; each blocking prefix is executed once. Concurrency (two threads) is decided "
-            "on the model only.",
+            "on an otherwise idle private map; each blocking prefix is executed once, and while the known finding "
+            "C43_extend_alias_deadlock is open at most 400 (quick) / 600 (thorough) sequences containing an aliased extend "
+            "are executed. Concurrency (two threads) is decided on the model only.",
     "design_ref": "§6 C43, A.13",
 }
 
@@ -72,7 +74,7 @@ def run(ctx):
                   constants=dict(ONE, MaxOps=ctx.pick(2, 3)), require_actions=acts)
     cases = list(res.replays)
     # deeper, sampled (seeded): sequences one longer, three URLs
-    sim = ctx.tlc("relay", "MC_RelayMapLocks", cfg="RelayMapLocks_u3.cfg", mode="sim", sim=ctx.pick(600, 20000),
+    sim = ctx.tlc("relay", "MC_RelayMapLocks", cfg="RelayMapLocks_u3.cfg", mode="sim", sim=ctx.pick(600, 6000),
                   depth=ctx.pick(10, 13), constants=dict(ONE, MaxOps=ctx.pick(3, 4)), timeout=3000)
     seen = set()
     for b in sim.replays:
@@ -82,6 +84,20 @@ def run(ctx):
             cases.append(b)
     if not cases:
         raise ToolError("TLC produced no operation sequences")
+    # Every sequence that runs into the open known finding costs a leaked thread and a watchdog wait.  While that
+    # finding is open, at most `cap` sequences containing an extend with aliased arguments are executed (all others
+    # always are); without an open finding nothing is capped.
+    if any(f.get("status") == "open" and f.get("id") == "C43_extend_alias_deadlock" for f in ctx.findings):
+        cap, kept, skipped = ctx.pick(400, 600), [], 0
+        for c in cases:
+            if any(x["op"] == "extend" and alias_class(x) in ("same_handle", "clone") for x in c["ops"]):
+                if cap == 0:
+                    skipped += 1
+                    continue
+                cap -= 1
+            kept.append(c)
+        cases = kept
+        ctx.cov["sequences_not_executed_while_known_finding_open"] = skipped
     execute(ctx, cases, "seqs")
     ctx.cov["rule"] = ("every operation sequence of RelayMapLocks of length %d over 3 handles (2 clones) x 2 URLs (exhaustive) "
                        "plus %d distinct seeded random sequences of length %d over 3 URLs; non-trivial = the sequence has a "
